@@ -37,11 +37,11 @@ const paramKVFinding = "F-C07-PARAMKV" // placeholder: the lead assigns the real
 const unstableChars = "İȺ\u212a"
 
 type MaskCase struct {
-	Pack    string `json:"pack"`    // TxSql | TxSqlParam | TxDbc
-	Ver     int32  `json:"ver"`     // protocol version
-	Via     string `json:"via"`     // "process": Process() on a filled pack; "topack": encode, then ToPack (Read + Process)
-	Style   string `json:"style"`   // space | semi | mixed (which separators occur; informational)
-	Tokens  []Tok  `json:"tokens"`  // the connection string
+	Pack    string   `json:"pack"`    // TxSql | TxSqlParam | TxDbc
+	Ver     int32    `json:"ver"`     // protocol version
+	Via     string   `json:"via"`     // "process": Process() on a filled pack; "topack": encode, then ToPack (Read + Process)
+	Style   string   `json:"style"`   // space | semi | mixed (which separators occur; informational)
+	Tokens  []Tok    `json:"tokens"`  // the connection string
 	Markers []string `json:"markers"` // the secret values that must disappear
 }
 
@@ -311,7 +311,7 @@ func sepClass(s string) string {
 
 var maskSpec = pbt.Register(pbt.Spec[MaskCase]{
 	Prop: "C07", Name: "masking",
-	Rule: "connection strings of 1..8 tokens (key=value, bare words, empty tokens, repeated keys, near-miss keys) separated by runs of spaces and/or semicolons, values containing '=', '#' and (in the pure styles) the other separator, 1..2 tokens with key `password` whose value contains a unique marker; pack Sql/SqlParam/Dbc x version of every family x Process() directly or through ToPack; Go/PHP: no string field contains a marker afterwards, other families: Dbc unchanged; non-trivial = Go or PHP version; distinct by (pack, version, path, connection string)",
+	Rule:  "connection strings of 1..8 tokens (key=value, bare words, empty tokens, repeated keys, near-miss keys) separated by runs of spaces and/or semicolons, values containing '=', '#' and (in the pure styles) the other separator, 1..2 tokens with key `password` whose value contains a unique marker; pack Sql/SqlParam/Dbc x version of every family x Process() directly or through ToPack; Go/PHP: no string field contains a marker afterwards, other families: Dbc unchanged; non-trivial = Go or PHP version; distinct by (pack, version, path, connection string)",
 	Quick: 8000, Thorough: 100000,
 	Draw: drawMask, Run: runMask,
 })
